@@ -1394,5 +1394,25 @@ func init() {
 		r.Transitions += cases
 		r.AddPart(map[string]interface{}{"engine": "ENUM", "search": "c15", "roundtrip_documents": nd * 2, "mutants": nm, "small_texts": small, "max_small_length": maxLen,
 			"cases": cases, "classified_valid": valid, "classified_invalid": invalid, "left_open": open})
+		// what a job's HTTP sink serialises (entities with the context it sends along) has to be parsed by the receiving
+		// hub into what the sender holds: the push cases of the HTTP-peer enumeration, reported here when the receiver
+		// cannot read a batch
+		{
+			pl := &engine.Pool{N: 1, Args: []string{"worker", "http-peer"}, Timeout: 600 * time.Second}
+			out := pl.Do([]json.RawMessage{json.RawMessage(`{}`)}, nil)
+			var pr peerResult
+			if out[0].Err != "" || json.Unmarshal(out[0].Out, &pr) != nil || pr.Err != "" {
+				r.Cap("http-peer: " + out[0].Err + " " + pr.Err)
+			} else {
+				for _, v := range pr.Viol {
+					if strings.HasPrefix(v.Key, "C15:") {
+						v.Replay = map[string]interface{}{"worker": []string{"worker", "http-peer"}}
+						r.AddViolation(v)
+					}
+				}
+				r.Evaluations += pr.Cases
+				r.AddPart(map[string]interface{}{"engine": "ENUM", "name": "http-peer", "cases": pr.Cases})
+			}
+		}
 	})
 }
